@@ -86,9 +86,16 @@ SPEC_M = [
 SPEC_M.append(("ledger.hsm2dongle", "HSM2Dongle", ["reset_advance_blockchain", "sign_authorized"]))
 SPEC_M.append(("ledger.hsm2dongle", "HSM2Dongle", ["_send_pin", "unlock", "new_pin", "onboard", "authorize_signer"]))
 # functions of the repository that are thin wrappers around a third-party library: pure oracles
-ORACLE_FUNCS = {("comm.bitcoin", "encode_varint")}
+ORACLE_FUNCS = {("comm.bitcoin", "encode_varint"),
+                # block_utils / pow: wrappers around the rlp package and the SHA-256 midstate code; their own models
+                # (Model/Rlp.v, Model/BlockOps.v, Model/Sha256.v) are tied by T2, here they are oracles
+                ("ledger.block_utils", "rlp_mm_payload_size"), ("ledger.block_utils", "get_coinbase_txn"),
+                ("ledger.block_utils", "get_block_hash"), ("ledger.block_utils", "remove_mm_fields_if_present"),
+                ("comm.pow", "coinbase_tx_get_hash")}
 SPEC_M.append(("ledger.protocol", "HSM2ProtocolLedger", [
     "report_comm_issue", "_error", "ensure_connection", "_get_pubkey", "_reset_advance_blockchain"]))
+SPEC_M.append(("ledger.hsm2dongle", "HSM2Dongle", [
+    "_send_block_header", "_do_block_operation", "advance_blockchain", "update_ancestor"]))
 SPEC_M.append(("ledger.protocol", "HSM2ProtocolLedger", [
     "_check_version", "_wait_and_reconnect", "_handle_bootloader", "initialize_device"]))
 # attributes of self that hold another translated object: (class, attribute) -> (module, class)
@@ -713,7 +720,7 @@ class FuncTr:
         ok = (isinstance(f, ast.Name) and f.id in LOGGER_NAMES) or \
              (isinstance(f, ast.Attribute) and f.attr in LOGGER_NAMES and isinstance(f.value, ast.Name))
         if ok:
-            need(e.func.attr in ("debug", "info", "warning", "error", "critical"), "logger method", e)
+            need(e.func.attr in ("debug", "info", "warning", "error", "critical", "fatal"), "logger method", e)
             need(all(self.safe_arg(a) for a in e.args) and not e.keywords, "logging arguments", e)
         return ok
 
@@ -874,6 +881,11 @@ class FuncTr:
                 obj = self.name_chain_const(e)
                 if obj is not NOTCONST and isinstance(obj, enum.Enum) and not isinstance(obj.value, int):
                     return self.enum_obj(obj)
+            if obj is not NOTCONST and isinstance(obj, type) and issubclass(obj, enum.Enum) \
+                    and all(isinstance(m_.value, int) for m_ in obj):
+                # an IntEnum class handed around as an object (ops / errors / responses): its members as fields
+                return "(VObj %s [%s])" % (coq_string(obj.__name__), "; ".join(
+                    "(%s, %s)" % (coq_string(m_.name), const_val(int(m_.value))) for m_ in obj))
             if obj is not NOTCONST and not isinstance(obj, (bool, int, str, bytes, type, enum.Enum)) and obj is not None \
                     and not isinstance(obj, (dict, list, tuple, set)) and not callable(obj):
                 io = self.instance_obj(obj)
@@ -970,6 +982,17 @@ class FuncTr:
             return self.binds([e.value, e.slice], lambda n: "py_getitem %s %s" % (n[0], n[1]))
         if isinstance(e, ast.List) or isinstance(e, ast.Tuple):
             return self.binds(list(e.elts), lambda n: "POk (VList [%s])" % "; ".join(n))
+        if isinstance(e, ast.Dict) and e.keys and not all(
+                kx is not None and (self.value_of(kx) or "").startswith("(VStr ") for kx in e.keys):
+            need(all(kx is not None for kx in e.keys), "dict unpacking", e)
+            items = []
+            for kx, vx in zip(e.keys, e.values):
+                items.extend([kx, vx])
+
+            def mk(n):
+                pairs = ['("", VList [%s; %s])' % (n[i], n[i + 1]) for i in range(0, len(n), 2)]
+                return 'POk (VObj "intdict" [%s])' % "; ".join(pairs)
+            return self.binds(items, mk)
         if isinstance(e, ast.Dict):
             keys = []
             for kx in e.keys:
@@ -1229,6 +1252,9 @@ class FuncTr:
                 if "int_oracle_" not in self.extra_params:
                     self.extra_params.append("int_oracle_")
                 return self.binds(e.args, lambda a: "py_int_base int_oracle_ %s %s" % (a[0], a[1]))
+            if n == "sorted" and len(e.args) == 1 and len(e.keywords) == 1 and e.keywords[0].arg == "key" and self.M:
+                fn = self.callable_text(e.keywords[0].value, e)
+                return self.binds(e.args, lambda a: "py_sorted_by (%s) %s" % (fn, a[0]))
             if n == "range" and len(e.args) == 1 and not e.keywords:
                 return self.binds(e.args, lambda a: "py_range %s" % a[0])
             if n == "enumerate" and len(e.args) in (1, 2) and not e.keywords:
@@ -1325,6 +1351,8 @@ class FuncTr:
                 fn = self.G().method(cls2, f.attr)
                 args = self.resolve_callee_args(find_method(cls2)[f.attr][1], e, True)
                 return self.binds([f.value] + args, lambda a: self.L("%s %s" % (fn, " ".join(a))))
+            if f.attr == "get" and len(e.args) == 2 and not e.keywords:
+                return self.binds([f.value] + list(e.args), lambda a: "py_get_default %s %s %s" % (a[0], a[1], a[2]))
             if f.attr == "get" and len(e.args) == 1 and not e.keywords:
                 return self.binds([f.value, e.args[0]], lambda a: "py_dict_get %s %s" % (a[0], a[1]))
             # a method of an object the translation knows nothing about (certificate elements ...): an oracle
@@ -1387,6 +1415,10 @@ class FuncTr:
         if isinstance(fx, ast.Lambda):
             need(len(fx.args.args) == 1, "lambda arity", e)
             return "fun %s => %s" % (self.v(fx.args.args[0].arg), self.expr(fx.body))
+        if isinstance(fx, ast.Name) and fx.id in self.m.imports and self.m.imports[fx.id] in ORACLE_FUNCS:
+            if "call_method_" not in self.extra_params:
+                self.extra_params.append("call_method_")
+            return "fun x_ => %s" % self.L("call_method_ %s VNone [x_]" % coq_string(self.m.imports[fx.id][1]))
         if isinstance(fx, ast.Name):
             cls = None
             if fx.id in self.m.classes:
